@@ -17,7 +17,7 @@ import sys
 import time
 import traceback
 
-from . import core
+from . import codetie, core
 
 VERIF = core.VERIF
 LEAN = core.LEAN_DIR
@@ -26,6 +26,8 @@ TRUSTED_BASE = [
     "Lean 4.33.0 kernel (leanchecker re-check in the thorough tier)",
     "axioms allowed in property theorems: propext, Classical.choice, Quot.sound (audited every run)",
     "translator tools/gen_tables.py (imports /repo's modules, emits lean/Cvss/Gen/*.lean)",
+    "source translator tools/gen_code.py (Python subset -> lean/Cvss/Gen/Code*.lean) with the semantics in lean/Cvss/Py.lean; "
+    "validated every run by executing the translation and the real methods on the same vectors (exact Decimal values)",
     "correspondence harness tools/vh + compiled Lean driver (model and spec executed on the same inputs as /repo's code)",
     "hand-written model lean/Cvss/Model/*.lean of the Python control flow: modelled, not verified; Decimal and binary floats abstracted by exact rationals",
     "frozen specification copies lean/Cvss/Spec/* (weights, v4 look-up table, grammar vocabulary, severity scale)",
@@ -159,6 +161,11 @@ def translate_and_build(pid, log):
         if rc != 0:
             res["build_ok"] = False
             res["errors"].append("proof build failed:\n" + _errors_of(out))
+        try:
+            res["source_tie"] = codetie.translate_and_prove(pid, log)
+        except Exception as e:  # noqa  (the source tie is an addition: its machinery failing must not fail the check)
+            res["source_tie"] = {}
+            log.append("[source tie] machinery failed: %s" % e)
     return res
 
 
@@ -188,11 +195,11 @@ open Lean Elab Command in
 """
 
 
-def audit(pid, log):
+def audit(pid, log, mods=None):
     """step 2: every theorem in namespace Cvss.Props.<pid> and the axioms it depends on."""
     path = os.path.join(VERIF, "scratch", "Audit_%s_%d.lean" % (pid, os.getpid()))
     with open(path, "w") as f:
-        f.write(AUDIT_TMPL % {"pid": pid, "imports": "\n".join("import " + m for m in prop_modules(pid))})
+        f.write(AUDIT_TMPL % {"pid": pid, "imports": "\n".join("import " + m for m in (mods or prop_modules(pid)))})
     try:
         rc, out = sh(["lake", "env", "lean", path], cwd=LEAN, timeout=1800)
     finally:
@@ -251,10 +258,10 @@ def cvss_closure(mods):
     return sorted(seen)
 
 
-def leancheck(pid, log):
+def leancheck(pid, log, extra=()):
     """thorough tier: the toolchain's independent re-checker replays the compiled declarations of the property's
     modules and of every project module they depend on"""
-    mods = cvss_closure(prop_modules(pid))
+    mods = cvss_closure(prop_modules(pid) + list(extra))
     t0 = time.time()
     rc, out = sh(["lake", "env", "leanchecker"] + mods, cwd=LEAN, timeout=5400)
     log.append("[leanchecker %d modules %.0fs rc=%d] %s" % (len(mods), time.time() - t0, rc, out.strip()[-300:]))
@@ -327,9 +334,28 @@ def run_check(pid, tier, seed, level, level_text=None):
             proof_problems.append("no theorem found in Cvss.Props.%s" % pid)
         for h in a["source_hits"]:
             proof_problems.append("forbidden construct in source: " + h)
+    # source tie: model = translated source (re-proved), translation = CPython (executed)
+    tie = b.get("source_tie") or {}
+    try:
+        codetie.validate_translation(pid, tie, seed, 1 if tier == "quick" else 8)
+    except Exception as e:  # noqa
+        log.append("[source tie] validation failed to run: %s" % e)
+    tie_notes = []
+    for v, r in sorted(tie.items()):
+        if r["status"] == "kernel-checked":
+            ns = r["module"].split(".")[-1]
+            ta = audit(ns, log, [r["module"]])
+            r["theorems"] = ta["theorems"]
+            bad_ax = [t for t in ta["theorems"] if not t["ok"]]
+            if ta["rc"] != 0 or not ta["theorems"] or bad_ax:
+                r["status"] = "not-re-proved"
+                r["detail"] = "axiom audit of %s: rc=%d, %d theorems, non-standard axioms in %s" % (
+                    r["module"], ta["rc"], len(ta["theorems"]), [t["theorem"] for t in bad_ax])
+        if r["status"] != "kernel-checked":
+            tie_notes.append("source tie CVSS%s %s: %s" % (v, r["status"], (r.get("detail") or "")[:400]))
     lc = None
     if tier == "thorough" and b["build_ok"]:
-        ok_lc, n_lc, out_lc = leancheck(pid, log)
+        ok_lc, n_lc, out_lc = leancheck(pid, log, [r["module"] for r in tie.values() if r["status"] == "kernel-checked"])
         lc = {"modules": n_lc, "ok": ok_lc}
         if not ok_lc:
             proof_problems.append("leanchecker rejects the compiled proofs: " + out_lc)
@@ -343,12 +369,13 @@ def run_check(pid, tier, seed, level, level_text=None):
         try:
             run_corpus(mod, ctx)
             mod.run(ctx)
-            if (proof_problems or ctx.disagreements) and not ctx.violations:
+            if (proof_problems or ctx.disagreements or tie_notes) and not ctx.violations:
                 # the tie or a proof is broken: extend the failing-input search on the real code
                 for k in (4, 16) if tier == "quick" else (3,):
                     ctx.scale = k
                     ctx.rng = random.Random(seed * 7919 + k)
-                    ctx.notes.append("tie broken: search extended x%d" % k)
+                    ctx.notes.append(("tie broken" if (proof_problems or ctx.disagreements) else "source tie not in force")
+                                     + ": search extended x%d" % k)
                     mod.run(ctx)
                     if ctx.violations:
                         break
@@ -400,9 +427,11 @@ def run_check(pid, tier, seed, level, level_text=None):
         exit_code = 1
 
     thms = a["theorems"]
-    obligations = len(thms) + 2  # + translator tie + correspondence tie
+    tie_thms = [t for r in tie.values() for t in (r.get("theorems") or [])]
+    obligations = len(thms) + 2 + len(tie)  # + translator tie + correspondence tie + one source tie per translated class
     discharged = sum(1 for t in thms if t["ok"]) + (1 if b["translator_ok"] and b["build_ok"] else 0) + (
-        1 if (n_dis == 0 and ctx.model_available and not crashed) else 0)
+        1 if (n_dis == 0 and ctx.model_available and not crashed) else 0) + sum(
+        1 for r in tie.values() if r["status"] == "kernel-checked")
     if not b["build_ok"]:
         obligations = max(obligations, 3)
         discharged = min(discharged, obligations - 1)
@@ -429,6 +458,8 @@ def run_check(pid, tier, seed, level, level_text=None):
             "explanation": getattr(mod, "EXPLANATION", "") or (level_text or ""),
             "notes": ctx.notes,
             "leanchecker": lc,
+            "source_tie": {("CVSS" + v): {k: r.get(k) for k in ("class", "module", "status", "detail", "translated", "theorems",
+                                                                 "validation")} for v, r in sorted(tie.items())},
             **ctx.extra,
         },
         "assumptions": list(getattr(mod, "ASSUMPTIONS", [])) + COMMON_ASSUMPTIONS,
@@ -455,6 +486,8 @@ def run_check(pid, tier, seed, level, level_text=None):
     if ctx.aux_disagreements:
         print("NOTE %s: %d auxiliary model/code differences in behaviour no property constrains (%s); see the evidence file" % (
             pid, len(ctx.aux_disagreements), ", ".join(sorted({d["obligation"] for d in ctx.aux_disagreements}))))
+    for tn in tie_notes:
+        print("NOTE %s: %s" % (pid, tn.replace("\n", " | ")[:700]))
     if proof_problems:
         print("proof/tie problems:\n  " + "\n  ".join(p[:600] for p in proof_problems[:6]))
     if crashed:
